@@ -499,11 +499,22 @@ func c13RealDecrypt(t *testing.T, m *Model, v *Verdict, rng *RNG) {
 				v.Violate("failing-input", "c13:real-decrypt:unmarshal", "a message the library marshalled is not unmarshalled", det)
 				continue
 			}
+			// k == 2: the key is looked up under a principal the service configured (a keytab principal override,
+			// here the same name under another name type): the ticket stays as it arrived
+			var ovr *types.PrincipalName
+			if k == 2 {
+				o := types.PrincipalName{NameType: 1, NameString: append([]string{}, c.sname...)}
+				ovr = &o
+			}
 			steps := []func() error{
-				func() error { return ap.Ticket.DecryptEncPart(kt, nil) },
+				func() error { return ap.Ticket.DecryptEncPart(kt, ovr) },
 				func() error { return ap.DecryptAuthenticator(ap.Ticket.DecryptedEncPart.Key) },
-				func() error { return ap.Ticket.DecryptEncPart(kt, nil) },
+				func() error { return ap.Ticket.DecryptEncPart(kt, ovr) },
 				func() error { return ap.DecryptAuthenticator(ap.Ticket.DecryptedEncPart.Key) },
+				func() error {
+					_, e := ap.Verify(kt, 5*time.Minute, types.HostAddress{}, ovr)
+					return e
+				},
 			}
 			for i, st := range steps {
 				var e error
